@@ -1,11 +1,110 @@
 import Oracle.Util
+import Wz.Model.ReadFS
 namespace Oracle.C17
-open Oracle
+open Oracle Wz.Gen.ReadFS Wz.Model.ReadFS
 
-/-- Topic state (stub: no model behind this topic yet). -/
+/-- Topic state: none (the read-only wrapper is stateless). -/
 abbrev St := Unit
 def init : St := ()
 
-def step (st : St) (_args : List String) : St × String := (st, "bad-op")
+def fsMethod? (s : String) : Option FSMethod := FSMethod.all.find? (·.name == s)
+def fileMethod? (s : String) : Option FileMethod := FileMethod.all.find? (·.name == s)
+
+def showUCall : UCall → String
+  | .fs m => s!"fs:{m.name}"
+  | .open f => s!"open:{f.toNat}"
+  | .file m => s!"file:{m.name}"
+  | .unknown => "unknown"
+
+def showReq : Req → String
+  | .fs .OpenFile fl => s!"fs:OpenFile:{fl.toNat}"
+  | .fs m _ => s!"fs:{m.name}"
+  | .file m => s!"file:{m.name}"
+
+def showList (l : List String) : String := if l.isEmpty then "-" else " ".intercalate l
+
+def showDecision : Except Nat (BitVec 32) → String
+  | .error e => s!"refuse {e}"
+  | .ok f => s!"delegate {f.toNat}"
+
+def showOutcome : OpenOutcome → String
+  | .einval => "einval"
+  | .refused e => s!"refuse {e}"
+  | .delegated f => s!"delegate {f.toNat}"
+
+def simpleOps : List (String × WasiOp) :=
+  [("path_create_directory", .pathCreateDirectory), ("path_remove_directory", .pathRemoveDirectory),
+   ("path_unlink_file", .pathUnlinkFile), ("path_rename", .pathRename), ("path_link", .pathLink),
+   ("path_symlink", .pathSymlink), ("path_filestat_set_times", .pathFilestatSetTimes),
+   ("path_filestat_get", .pathFilestatGet), ("path_readlink", .pathReadlink),
+   ("fd_write", .fdWrite), ("fd_pwrite", .fdPwrite), ("fd_allocate", .fdAllocate),
+   ("fd_filestat_set_size", .fdFilestatSetSize), ("fd_filestat_set_times", .fdFilestatSetTimes),
+   ("fd_fdstat_set_flags", .fdFdstatSetFlags), ("fd_sync", .fdSync), ("fd_datasync", .fdDatasync),
+   ("fd_read", .fdRead), ("fd_pread", .fdPread), ("fd_seek", .fdSeek), ("fd_tell", .fdTell),
+   ("fd_readdir", .fdReaddir), ("fd_filestat_get", .fdFilestatGet), ("fd_fdstat_get", .fdFdstatGet),
+   ("fd_close", .fdClose), ("fd_renumber", .fdRenumber), ("fd_advise", .fdAdvise), ("fd_prestat_get", .fdPrestatGet)]
+
+def step (st : St) (args : List String) : St × String :=
+  match args with
+  | ["variant"] => (st, variantName)
+  | ["wraps"] => (st, ReadFS_OpenFile_wrapsIn)
+  | ["open", fl] =>
+    match parseNat fl with
+    | some fl => (st, showDecision (ReadFS_OpenFile (BitVec.ofNat 32 fl)))
+    | none => (st, "bad-op")
+  | ["readonly", fl] =>
+    match parseNat fl with
+    | some fl => (st, b2s (readOnlyFlag (BitVec.ofNat 32 fl)))
+    | none => (st, "bad-op")
+  | ["openflags", d, o, f, r] =>
+    match parseNat d, parseNat o, parseNat f, parseNat r with
+    | some d, some o, some f, some r =>
+      (st, s!"{(openFlags (BitVec.ofNat 16 d) (BitVec.ofNat 16 o) (BitVec.ofNat 16 f) (BitVec.ofNat 32 r)).toNat}")
+    | _, _, _, _ => (st, "bad-op")
+  | ["pathopen", d, o, f, r] =>
+    match parseNat d, parseNat o, parseNat f, parseNat r with
+    | some d, some o, some f, some r =>
+      (st, showOutcome (pathOpen ReadFS_OpenFile (BitVec.ofNat 16 d) (BitVec.ofNat 16 o) (BitVec.ofNat 16 f) (BitVec.ofNat 32 r)))
+    | _, _, _, _ => (st, "bad-op")
+  | ["serve", "fs", m, fl] =>
+    match fsMethod? m, parseNat fl with
+    | some m, some fl => (st, showList ((serve (.fs m (BitVec.ofNat 32 fl))).map showUCall))
+    | _, _ => (st, "bad-op")
+  | ["serve", "file", m] =>
+    match fileMethod? m with
+    | some m => (st, showList ((serve (.file m)).map showUCall))
+    | none => (st, "bad-op")
+  | ["adapt", "fs", m] =>
+    match fsMethod? m with
+    | some m => (st, showList ((serveAdapt (.fs m 0#32)).map showUCall))
+    | none => (st, "bad-op")
+  | ["adapt", "file", m] =>
+    match fileMethod? m with
+    | some m => (st, showList ((serveAdapt (.file m)).map showUCall))
+    | none => (st, "bad-op")
+  | ["nonmut", "fs", m] =>
+    match fsMethod? m with
+    | some m => (st, b2s (UCall.fs m).nonMutating)
+    | none => (st, "bad-op")
+  | ["nonmut", "file", m] =>
+    match fileMethod? m with
+    | some m => (st, b2s (UCall.file m).nonMutating)
+    | none => (st, "bad-op")
+  | ["nonmut", "open", fl] =>
+    match parseNat fl with
+    | some fl => (st, b2s (UCall.open (BitVec.ofNat 32 fl)).nonMutating)
+    | none => (st, "bad-op")
+  | ["methods", "fs"] => (st, showList (FSMethod.all.map (·.name)))
+  | ["methods", "file"] => (st, showList (FileMethod.all.map (·.name)))
+  | ["wasi", "path_open", d, o, f, r] =>
+    match parseNat d, parseNat o, parseNat f, parseNat r with
+    | some d, some o, some f, some r =>
+      (st, showList ((wasiReqs (.pathOpen (BitVec.ofNat 16 d) (BitVec.ofNat 16 o) (BitVec.ofNat 16 f) (BitVec.ofNat 32 r))).map showReq))
+    | _, _, _, _ => (st, "bad-op")
+  | ["wasi", name] =>
+    match simpleOps.find? (·.1 == name) with
+    | some (_, op) => (st, showList ((wasiReqs op).map showReq))
+    | none => (st, "bad-op")
+  | _ => (st, "bad-op")
 
 end Oracle.C17
